@@ -59,6 +59,11 @@ def stdSem : Sem where
     | 9, xs => .val (.s (.num (.int ((flattenV xs).filter (fun x => !(isEmptyValue (.s x)))).length)))
     | 10, [a, b] => ofOpR (binop Ext.none .lt (scalarOf a) (scalarOf b))
     | _, _ => .raiseOther 10
+  -- AND / OR (`evalSc` → `argVerdict`) flatten their evaluated arguments and apply `truth` to the ITEMS only,
+  -- i.e. to scalars.  The `.arr` case is therefore reached by IF alone (`=IF(B1:B3, …)`): the real code
+  -- raises ValueError there ("The truth value of an array … is ambiguous", wrapped by `evaluate` into a
+  -- RuntimeError); the model does not express that — an array condition is outside the domain of the
+  -- correspondences, which never generate one.
   truth := fun v =>
     match v with
     | .s (.err _) => none
